@@ -32,6 +32,16 @@ pub fn run_c02(ctx: &Ctx) -> i32 {
             cfg.max_w = 40;
             cfg.max_h = 3;
         }
+        if i % 300 == 11 {
+            // stacks of more than 255 layers
+            cfg.max_layers = 330;
+            cfg.max_frames = 2;
+            cfg.max_w = 6;
+            cfg.max_h = 6;
+            cfg.max_cel = 5;
+            cfg.big = false;
+            cfg.extreme_cels = false;
+        }
         if i % 7 == 1 {
             cfg.max_w = 3;
             cfg.max_h = 40;
